@@ -1,6 +1,6 @@
 PROPS["C16"] = {
         "families": {"store": {"quick": 600, "thorough": 30000}},
-        "claim": "Theorems (Lean kernel): C16_memory_full, C16_file_full, C16_sql_full — for EVERY operation history (ascending saves per epoch; file: numbers within Go int) the memory, byte-exact file and two-table SQL store models return exactly the observations of the abstract store, including refresh and close-and-reopen; plus text-format round trips, durability of counters, isolation of sessions sharing one backing.",
+        "claim": "Theorems (Lean kernel): C16_memory_full, C16_file_full, C16_sql_full — for EVERY operation history (ascending saves per epoch; file: numbers within Go int) the memory, byte-exact file and two-table SQL store models return exactly the observations of the abstract store, including refresh and close-and-reopen; C16_sql_sides_commute — in the SQL store a target-side operation (event loop) and a sender-side operation (sending goroutine) commute, which is what the `sqlinter` operation demands of the real store at statement granularity; plus text-format round trips, durability of counters, isolation of sessions sharing one backing.",
         "note": "Lean kernel + propext/Classical.choice/Quot.sound; models of memory_store.go, store/file/file_store.go (byte-exact files, Fscanf loop), "
                 "store/sql/sql_store.go (two tables) tied to the code by differential runs on generated histories incl. the file images after every op; "
                 "file system and SQLite are executed, not modelled; Mongo store not covered (no server)",
